@@ -181,7 +181,7 @@ def _digit_free(scen):
     return not any(ch.isdigit() for s in scen["sims"] for ch in s["sid"])
 
 
-def vshape_jobs(items, thorough, max_exec=800):
+def vshape_jobs(items, thorough, max_exec=6000):
     """Value shapes on the wire (mc/vshape.py): numbers including the falsy values 0, "", False,
     [] and {}, and dictionaries with step-dependent key sets, instead of string tokens.  The
     monitors see the decoded tokens, so every oracle (and C04's comparison of views across
@@ -196,23 +196,23 @@ def vshape_jobs(items, thorough, max_exec=800):
                     cfg = dict(lazy=lazy, cache=cache, vshape=shape)
                     jobs.append(dict(name=name, scen=scen, cfg=cfg, budget=0, max_exec=max_exec))
                     if thorough and scen.get("max_budget", 1) >= 1:
-                        jobs.append(dict(name=name, scen=scen, cfg=cfg, budget=1, max_exec=max_exec * 4))
+                        jobs.append(dict(name=name, scen=scen, cfg=cfg, budget=1, max_exec=20000))
                 jobs.append(dict(name=name, scen=scen, cfg=dict(lazy=True, cache=cache, vshape=shape,
                                                                 sync="all"), budget=0, max_exec=10))
     return jobs
 
 
-def reuse_jobs(items, thorough, max_exec=800):
+def reuse_jobs(items, thorough, max_exec=6000):
     """In-process simulators that keep ONE reply dictionary and update it in place (`return
     self.data`): what mosaik stored or handed on for an earlier time must not change with it."""
     jobs = []
     for name, scen in items:
         for lazy in (True, False):
-            for cache in ((True, False) if thorough or not lazy else (True,)):
+            for cache in ((True, False) if thorough else (True,)):
                 cfg = dict(lazy=lazy, cache=cache, reuse=True)
                 jobs.append(dict(name=name, scen=scen, cfg=cfg, budget=0, max_exec=max_exec))
                 if thorough and scen.get("max_budget", 1) >= 1:
-                    jobs.append(dict(name=name, scen=scen, cfg=cfg, budget=1, max_exec=max_exec * 4))
+                    jobs.append(dict(name=name, scen=scen, cfg=cfg, budget=1, max_exec=20000))
         jobs.append(dict(name=name, scen=scen, cfg=dict(lazy=True, cache=True, reuse=True, sync="all"),
                          budget=0, max_exec=10))
         # ... and simulators that consume their `inputs` destructively (clear the dictionaries
@@ -224,7 +224,7 @@ def reuse_jobs(items, thorough, max_exec=800):
     return jobs
 
 
-def badpair_jobs(items, thorough, max_exec=800):
+def badpair_jobs(items, thorough, max_exec=6000):
     """Every connect() call of the scenario names one more attribute pair that mosaik rejects,
     and the script handles the ScenarioError: the valid pairs of the call must behave exactly as
     if they had been given alone."""
